@@ -499,7 +499,6 @@ class WBEMSubscriptionManager:
                 inst = inst_list[i]
                 server.conn.DeleteInstance(inst.path)
                 del inst_list[i]
-            del self._owned_subscriptions[server_id]
 
         if server_id in self._owned_filters:
             inst_list = self._owned_filters[server_id]
@@ -508,7 +507,6 @@ class WBEMSubscriptionManager:
                 inst = inst_list[i]
                 server.conn.DeleteInstance(inst.path)
                 del inst_list[i]
-            del self._owned_filters[server_id]
 
         if server_id in self._owned_destinations:
             inst_list = self._owned_destinations[server_id]
@@ -517,7 +515,14 @@ class WBEMSubscriptionManager:
                 inst = inst_list[i]
                 server.conn.DeleteInstance(inst.path)
                 del inst_list[i]
-            del self._owned_destinations[server_id]
+
+        # Remove the (now empty) lists of owned instances only after all
+        # deletions succeeded: when a deletion fails (e.g. an owned filter is
+        # still referenced by a subscription of another client), the server
+        # stays registered and get_owned_*() must keep working for it.
+        self._owned_subscriptions.pop(server_id, None)
+        self._owned_filters.pop(server_id, None)
+        self._owned_destinations.pop(server_id, None)
 
         # Remove server from this listener
         del self._servers[server_id]
